@@ -241,6 +241,14 @@ func (b *builder) build1(v *Val) interface{} {
 		return uintptr(v.int(in))
 	case "nint":
 		return NInt(v.int(in))
+	case "nuint8":
+		return NUint8(v.int(in))
+	case "nuint":
+		return NUint(v.int(in))
+	case "bigslice":
+		return []BigRec{{S: v.str(in)}, {A: [20]int64{v.int(in)}, S: "b"}}
+	case "pbigstruct":
+		return &struct{ R BigRec }{BigRec{S: v.str(in)}}
 	case "f32":
 		return float32(v.float(in))
 	case "f64":
